@@ -1064,6 +1064,10 @@ class Interp(object):
     def binop(self, op, a, b):
         T = type(op)
         name, rname = _DUNDER[T]
+        if isinstance(a, Arr) and isinstance(b, Obj) and T in _UFUNC_OF_OP and self.has_dunder(b, '__array_ufunc__'):
+            # numpy: ndarray.__op__(obj) hands the operation to obj.__array_ufunc__(ufunc, '__call__', array, obj) when the
+            # right operand defines it (the reflected dunder is never tried)
+            return self.call_dunder(b, '__array_ufunc__', UfuncRef(_UFUNC_OF_OP[T]), '__call__', a, b)
         if isinstance(a, Obj) or isinstance(b, Obj):
             if isinstance(a, Obj) and self.has_dunder(a, name):
                 r = self.call_dunder(a, name, b)
@@ -1406,6 +1410,22 @@ _DUNDER = {ast.Add: ('__add__', '__radd__'), ast.Sub: ('__sub__', '__rsub__'),
            ast.BitOr: ('__or__', '__ror__'), ast.MatMult: ('__matmul__', '__rmatmul__'),
            ast.BitXor: ('__xor__', '__rxor__'), ast.LShift: ('__lshift__', '__rlshift__'),
            ast.RShift: ('__rshift__', '__rrshift__')}
+_UFUNC_OF_OP = {ast.Add: 'add', ast.Sub: 'subtract', ast.Mult: 'multiply', ast.Div: 'true_divide', ast.Pow: 'power'}
+
+
+class UfuncRef(object):
+    """Stand-in for a numpy ufunc object handed to __array_ufunc__ (only its name is inspected by the analysed code)."""
+
+    def __init__(self, name):
+        self.__name__ = name
+
+    def __repr__(self):
+        return '<ufunc %r>' % self.__name__
+
+    def __call__(self, *a, **k):
+        raise AnalysisError('call of the ufunc object np.%s received through __array_ufunc__ is not modelled' % self.__name__)
+
+
 _SCALAR_OPS = {ast.Add: s_add, ast.Sub: s_sub, ast.Mult: s_mul, ast.Div: s_div, ast.Pow: s_pow,
                ast.FloorDiv: s_floordiv, ast.Mod: s_mod, ast.BitAnd: s_and, ast.BitOr: s_or}
 _IOPS = {ast.Add: '__iadd__', ast.Sub: '__isub__', ast.Mult: '__imul__', ast.Div: '__itruediv__'}
